@@ -437,4 +437,21 @@ def idealBody : Body where
     if s.inp.length < s.sz then (.unexpectedEOF, ⟨[], s.sz - s.inp.length⟩)
     else (.shortRead, ⟨s.inp.drop s.sz, 0⟩)
 
+/-- message_reader.go readHeader, as far as its SIZE goes: offset (8), length (4), crc / leader epoch (4), magic (1),
+then what the format adds before the first message can be looked at — v0: attributes (1); v1: attributes, timestamp
+(9); v2: the rest of the batch header (44).  A set that does not hold that much makes `newMessageSetReader` fail with
+errShortRead (io.ErrUnexpectedEOF for the caller, Conn closed). -/
+def headerNeed (magic : UInt8) : Nat :=
+  if magic = 0 then 18 else if magic = 1 then 26 else if magic = 2 then 61 else 17
+
+/-- `idealBody` with the header-size rule: the reader that reads a set to its end, and refuses a set too short for
+one message/batch header (what the driver's oracle runs) -/
+def headerBody : Body where
+  first := fun s =>
+    if s.sz < 17 then (.error .shortRead, s)
+    else if s.inp.getD 16 0 > 2 then (.error (.other "unsupported message version"), s)   -- header.badMagic()
+    else if s.sz < headerNeed (s.inp.getD 16 0) then (.error .shortRead, s)
+    else (.ok (), s)
+  rest := idealBody.rest
+
 end KV.ConnOps
